@@ -61,6 +61,9 @@ type Poison struct{ Why string }
 type MapData struct {
 	Keys []Value
 	Vals []Value
+	// Present[i] tells whether entry i exists (nil = every entry exists). Entries inserted under a symbolic
+	// key carry the condition "no earlier entry has this key"; at most one present entry matches any key.
+	Present []*term.Term
 }
 
 type IterData struct {
